@@ -12,6 +12,8 @@ ASSUMPTIONS = {
     "A6": "A6 trusted leaves of the repository (external_body, contract assumed, body is one std call Verus cannot specify): parser::to_str, Element::new, Element::get_child, Element::get_child_mut, Element::remove_child, Element::merge_attr (assume_specification: attributes become spec_merge(old, arg), nothing else changes)",
         "A9": "A9 Rust's allocation limit: a Vec of a non-zero-sized element type (Necessity<_>, String, u8) has at most isize::MAX elements (broadcast axioms group_vec_len_bounds); without it harmless size arithmetic such as Vec::with_capacity(a.len() + b.len()) would be flagged",
     "A8": "A8 renderer frame: to_serde_struct is an unverified deterministic function of the tree (the contracts stop at the Element tree; the rendered text is outside the verifier)",
+    "M": "machine arithmetic is NOT treated as mathematical: every u32/usize operation in the functions under contract carries Verus's overflow obligation (the occurrence counter saturates, D5); int/nat occur only in ghost code",
+    "U": "there is no unsafe code in /repo/src (checked by a text scan on every run); the external crates quick_xml, convert_string, log are outside the verifier (A5) and may contain unsafe code",
     "V": "Verus 0.2026.09.13 + Z3 are trusted; vstd's specifications of Vec, Option, Result, HashMap, slice iterators, String::clone are trusted; termination of spec functions is checked by Verus",
     "H": "'unique for all operation sequences' / 'for all histories of extend' / 'across all occurrences' is the induction over the per-operation contracts (constructor establishes, every operation preserves); that induction step is the standard meta-argument and is not itself machine-checked",
 }
@@ -19,29 +21,29 @@ ASSUMPTIONS = {
 PROPS = {
     "C15": {
         "units": [r"^xml_schema_generator::necessity::", r"^xml_schema_generator::vspec::nec::", r"^xml_schema_generator::vspec::c15::"],
-        "assumes": ["A1", "A2", "A9", "V"],
+        "assumes": ["A1", "A2", "A9", "M", "U", "V"],
         "claim": "full functional contract of merge_necessity against spec_merge (written from the statement) plus the derived clause lemmas (each distinct item exactly once for duplicate-free inputs, Mandatory iff Mandatory in both, first-list order then second-list-only items in original relative order), for all lists of all lengths",
     },
     "C16": {
         "units": [r"^xml_schema_generator::element::", r"^xml_schema_generator::necessity::(Necessity::|impl)", r"^xml_schema_generator::vspec::tree::"],
-        "assumes": ["A1", "A2", "A3", "A6", "A9", "H", "V"],
+        "assumes": ["A1", "A2", "A3", "A6", "A9", "H", "M", "U", "V"],
         "claim": "tree half: every public construction operation preserves unique child names (also deeply), add-existing is a no-op, mark-optional preserves the subtree, lookup/removal contracts are assumed leaves (A6); the rendering sentence of C16 is not covered",
     },
-    "C03": {"units": ALL_PARSER, "assumes": ["A1", "A2", "A3", "A4", "A5", "A6", "A8", "A9", "V"],
+    "C03": {"units": ALL_PARSER, "assumes": ["A1", "A2", "A3", "A4", "A5", "A6", "A8", "A9", "M", "U", "V"],
             "claim": "the tree returned by the parser is exactly g_build (the inference algorithm as a spec function) of the abstract event stream (T1)"},
-    "C05": {"units": ALL_PARSER, "assumes": ["A1", "A2", "A3", "A4", "A5", "A6", "A8", "A9", "V"],
+    "C05": {"units": ALL_PARSER, "assumes": ["A1", "A2", "A3", "A4", "A5", "A6", "A8", "A9", "M", "U", "V"],
             "claim": "parser half: the returned tree including internal child order is a spec function of (tree, event sequence); vstd leaves HashMap iteration order unconstrained, so the proof exists only if that order cannot influence the result"},
-    "C07": {"units": ALL_PARSER, "assumes": ["A1", "A2", "A3", "A4", "A5", "A6", "A9", "V"],
+    "C07": {"units": ALL_PARSER, "assumes": ["A1", "A2", "A3", "A4", "A5", "A6", "A9", "M", "U", "V"],
             "claim": "no arithmetic overflow, out-of-bounds access or failing unwrap, and termination (decreases) of every function under contract, for all event streams"},
-    "C08": {"units": ALL_PARSER, "assumes": ["A1", "A2", "A3", "A4", "A5", "A6", "A9", "V"],
+    "C08": {"units": ALL_PARSER, "assumes": ["A1", "A2", "A3", "A4", "A5", "A6", "A9", "M", "U", "V"],
             "claim": "Ok/Err verdict equals the stream-order oracle scan(); the error variant equals scan_kind() (first fault in stream order); syntax errors carry the reader position"},
-    "C01": {"units": ALL_PARSER, "assumes": ["A1", "A2", "A3", "A4", "A5", "A6", "A8", "A9", "H", "V"],
+    "C01": {"units": ALL_PARSER, "assumes": ["A1", "A2", "A3", "A4", "A5", "A6", "A8", "A9", "H", "M", "U", "V"],
             "claim": "T1 + one-step soundness theorems (theorem_occurrence_start/_empty, theorem_c15) over the ghost algorithm"},
-    "C06": {"units": ALL_PARSER, "assumes": ["A1", "A2", "A3", "A4", "A5", "A6", "A8", "A9", "H", "V"],
+    "C06": {"units": ALL_PARSER, "assumes": ["A1", "A2", "A3", "A4", "A5", "A6", "A8", "A9", "H", "M", "U", "V"],
             "claim": "T1 on extend_struct + extend == one more root occurrence + element-less no-op + one-step monotonicity; order independence / idempotence bounded only"},
-    "C09": {"units": ALL_PARSER, "assumes": ["A1", "A2", "A3", "A4", "A5", "A6", "A8", "A9", "V"],
+    "C09": {"units": ALL_PARSER, "assumes": ["A1", "A2", "A3", "A4", "A5", "A6", "A8", "A9", "M", "U", "V"],
             "claim": "T1 + theorem_level_order (position order == first-appearance order) + attribute order by merge_necessity's contract; renderer sort bounded only"},
-    "C11": {"units": ALL_PARSER, "assumes": ["A1", "A2", "A3", "A4", "A5", "A6", "A8", "A9", "V"],
+    "C11": {"units": ALL_PARSER, "assumes": ["A1", "A2", "A3", "A4", "A5", "A6", "A8", "A9", "M", "U", "V"],
             "claim": "T1 (tree == g_build(abstract events)) + theorem_norm (g_build depends only on the normal form of the stream: ignorable events dropped, CDATA == text, text content erased, <x/> == <x></x>); attribute values are not part of the event model"},
 }
 
